@@ -92,7 +92,9 @@ class Ser:
             d = a.defaults[i - (n - nd)] if i >= n - nd else None
             ps.append("(%s, %s)" % (q(p.arg), opt(self.expr(d)) if d is not None else "None"))
         static = any(isinstance(d, ast.Name) and d.id == "staticmethod" for d in f.decorator_list)
-        return "Definition %s : fundef :=\n  FunDef %s %s %s %s\n  %s." % (coqname, q(f.name), "true" if static else "false", lst(ps), opt(q(a.kwarg.arg)) if a.kwarg else "None", self.stmts(f.body))
+        # a @property is a method that is CALLED by attribute access: recorded in the function's name as "@name"
+        prop = any(isinstance(d, ast.Name) and d.id == "property" for d in f.decorator_list)
+        return "Definition %s : fundef :=\n  FunDef %s %s %s %s\n  %s." % (coqname, q(("@" if prop else "") + f.name), "true" if static else "false", lst(ps), opt(q(a.kwarg.arg)) if a.kwarg else "None", self.stmts(f.body))
 
 def main(spec_path, out):
     spec = json.load(open(spec_path))   # [{"file":..., "items":[["Class","method"], [null,"function"]]}]
